@@ -224,6 +224,13 @@ func (e *SpecEnv) toSeq(v Val) Seq {
 		if srt == "" {
 			e.fail("sequence view needs scalar elements, got %s", s.Elem)
 		}
+		if vt, isView := c.views[s.Ref.S]; isView {
+			// raw bytes of an integer variable: an uninterpreted function of its current value
+			cur := c.asScalar(c.load(e.cur, c.elemPrefix(vt), vt, s.Ref, c.idx(0)), vt)
+			fn := "unsafe.bytes." + smtIdent(typeKey(vt))
+			c.declareUF(fn, []string{cur.T.Sort}, arraySort(c.idxSort(), srt))
+			return Seq{app(arraySort(c.idxSort(), srt), fn, cur.T), s.Off, s.Len, s.Elem}
+		}
 		h := c.heapGet(e.cur, c.elemPrefix(s.Elem), srt)
 		return Seq{Select(h, s.Ref), s.Off, s.Len, s.Elem}
 	case ArrayV:
@@ -308,8 +315,16 @@ func (e *SpecEnv) selector(n *SSel) Val {
 	// qualified constants like math.MaxInt64
 	if id, ok := n.X.(*SIdent); ok {
 		if _, bound := e.vars[id.Name]; !bound && e.pkg != nil && e.pkg.types != nil {
+			aliasPath := ""
+			for _, f := range e.pkg.files {
+				for _, is := range f.Imports {
+					if is.Name != nil && is.Name.Name == id.Name {
+						aliasPath = strings.Trim(is.Path.Value, `"`)
+					}
+				}
+			}
 			for _, imp := range e.pkg.types.Imports() {
-				if imp.Name() == id.Name {
+				if imp.Name() == id.Name || (aliasPath != "" && imp.Path() == aliasPath) {
 					if o := imp.Scope().Lookup(n.Name); o != nil {
 						if k, ok := o.(*types.Const); ok {
 							return c.constVal(k.Val(), k.Type(), token.NoPos)
@@ -831,6 +846,17 @@ func (e *SpecEnv) call(n *SCall) Val {
 	case "bytes.Compare":
 		a, b := e.toSeq(e.eval(n.Args[0])), e.toSeq(e.eval(n.Args[1]))
 		return c.bytesCompare(a, b)
+	case "rawbytes":
+		// the in-memory bytes of an integer value as seen through an unsafe byte view (see evalConversion)
+		s, ok := e.eval(n.Args[0]).(Scalar)
+		if !ok || !isIntType(s.Ty) {
+			e.fail("rawbytes needs a typed integer argument")
+		}
+		w, _, _ := intInfoOf(s.Ty)
+		bs := c.scalarSort(types.Typ[types.Uint8])
+		fn := "unsafe.bytes." + smtIdent(typeKey(s.Ty))
+		c.declareUF(fn, []string{s.T.Sort}, arraySort(c.idxSort(), bs))
+		return Seq{app(arraySort(c.idxSort(), bs), fn, s.T), c.idx(0), c.idx(int64(w / 8)), types.Typ[types.Uint8]}
 	}
 	// type conversions
 	if t, ok := basicByName[name]; ok && len(n.Args) == 1 {
@@ -962,7 +988,7 @@ func (e *SpecEnv) applySpecFunc(sf *SpecFunc, args []SExpr) Val {
 			if _, isNil := v.(NilV); isNil {
 				v = c.zero(pt)
 			}
-			if (sf.Rec || sf.Decl) {
+			if sf.Rec || sf.Decl || c.opaqueSpec(sf.Name) {
 				v = e.toSeq(v)
 			}
 		}
@@ -970,6 +996,12 @@ func (e *SpecEnv) applySpecFunc(sf *SpecFunc, args []SExpr) Val {
 	}
 	if sf.Rec || sf.Decl {
 		return e.applySMTFunc(sf, avs)
+	}
+	if c.opaqueSpec(sf.Name) {
+		// "opt opaque-spec name": the definition is hidden in this function's obligations (only congruence remains)
+		cp := *sf
+		cp.Decl = true
+		return e.applySMTFunc(&cp, avs)
 	}
 	sub := e.sub()
 	sub.vars = map[string]Val{}
@@ -991,6 +1023,18 @@ func (e *SpecEnv) applySpecFunc(sf *SpecFunc, args []SExpr) Val {
 		return Scalar{s.T, rt}
 	}
 	return r
+}
+
+func (c *Ctx) opaqueSpec(name string) bool {
+	if c.fc == nil {
+		return false
+	}
+	for _, n := range strings.Fields(c.fc.Opts["opaque-spec"]) {
+		if n == name {
+			return true
+		}
+	}
+	return false
 }
 
 func (c *Ctx) resolveTypeTextIn(s string, pk *Pkg) types.Type {
